@@ -9,9 +9,15 @@ pub fn run(path: &str) {
             return;
         }
     };
-    match pipe::compile(&text, Shell::Bash) {
+    let shell = match std::env::var("CGMC_SHELL").as_deref() {
+        Ok("zsh") => Shell::Zsh,
+        Ok("fish") => Shell::Fish,
+        Ok("pwsh") => Shell::Pwsh,
+        _ => Shell::Bash,
+    };
+    match pipe::compile(&text, shell) {
         Outcome::Ok(c) => {
-            match crate::props::c02::check_one(&g, &text, Shell::Bash, &c) {
+            match crate::props::c02::check_one(&g, &text, shell, &c) {
                 Ok(r) => println!("C02 ok, product states {}", r.stats.states),
                 Err((k, s, _)) => println!("C02 VIOLATION {k}: {s}"),
             }
@@ -24,5 +30,42 @@ pub fn run(path: &str) {
         }
         Outcome::Err(e) => println!("rejected: {}", pipe::error_kind(&e)),
         Outcome::Panic(p) => println!("panic {p}"),
+    }
+}
+
+/// debug helper: run C02's check over the thorough definition family, single-threaded
+pub fn run_defs() {
+    let mut n = 0u64;
+    let mut bad = 0u64;
+    crate::fam::with_defs(4, 3, 3, &mut |g| {
+        n += 1;
+        let text = crate::ast::print_grammar(&g);
+        for (shell, sn) in crate::pipe::SHELLS {
+            if let Outcome::Ok(c) = pipe::compile(&text, shell) {
+                if let Err((k, s, _)) = crate::props::c02::check_one(&g, &text, shell, &c) {
+                    bad += 1;
+                    if bad < 10 {
+                        println!("{sn}: {k}: {} :: {}", text.replace('\n', " "), &s[..s.len().min(200)]);
+                    }
+                }
+            }
+        }
+    });
+    println!("{n} grammars, {bad} failures");
+}
+
+/// debug helper: the same family through the parallel runner (all four shells)
+pub fn run_defs_par() {
+    let all: Vec<Shell> = crate::pipe::SHELLS.iter().map(|(s, _)| *s).collect();
+    let accs = crate::par::run(
+        crate::par::nthreads(),
+        |push| crate::fam::with_defs(4, 3, 3, &mut |g| push(g)),
+        crate::props::c02::Acc::default,
+        |acc, g| crate::props::c02::work(acc, g, &all),
+    );
+    let t = crate::props::c02::merge(accs);
+    println!("{} grammars, {} violations", t.grammars, t.violations.len());
+    for v in t.violations.iter().take(5) {
+        println!("{} :: {} :: {}", v.0, &v.1[..v.1.len().min(300)], v.2.to_string_pretty());
     }
 }
